@@ -9,7 +9,7 @@ let pos_to_string (p : positive) : string = ZA.to_string (zt_of_pos p)
 
 (* ---- loop scenarios ---- *)
 let obs_of step (s : state) (k : int) : state * string =
-  let now = zs (string_of_int ((k + 2) * 1000000000)) in
+  let now = zs (string_of_int ((k + 2) * 3000000000)) in   (* the probe's clock jumps 2 s per iteration; interval 1 *)
   let (s', acts) = step s (Tick now) in
   let ev = List.exists (fun a -> match a with Eval (_, _) -> true | _ -> false) acts in
   let pend = match s'.ph with Locking -> "L" | Unlocking -> "U" | Crashed -> "X" | _ -> "-" in
@@ -51,7 +51,7 @@ let run_loop (step : state -> event -> (state * action list)) (interleaved : boo
 let loop t : string =
   let conn0 = next_int t = 1 in
   let steps = t.rest in
-  run_loop (step_s (zs "0")) false conn0 steps ^ " || " ^ run_loop (step_i (zs "0")) true conn0 steps
+  run_loop (step_s (zs "1")) false conn0 steps ^ " || " ^ run_loop (step_i (zs "1")) true conn0 steps
 
 (* ---- pacing ---- *)
 let fmt_groups (gs : (positive * z) list) : string =
@@ -99,7 +99,9 @@ let cfg t : string =
     let sv = opt_of_tok (next t) in
     let th = opt_of_tok (next t) in
     { mc_interval = iv; mc_send = sv; mc_threshold = th }) in
-  let mi = configure_min mods in
+  match configure mods with
+  | None -> "CFGPANIC"   (* Configure refuses: an interval outside 1 .. 9223372036 *)
+  | Some mi ->
   let _now0 = next t in
   let gl = next_list t (fun t -> let g = pos_of_string (next t) in let le = next_z t in (g, le)) in
   let step = step_s mi in
